@@ -66,11 +66,11 @@ repaired cycle check, which is modelled, tied to the code and explored by the st
 the expansion).  For every other input — any bytes, any braces, quotes, commas, snippets definitions,
 environment references whose replacement ends — `Parse` returns: a fuel of (number of tokens + 3) is never
 used up, because every loop of parse.go advances the cursor. -/
-theorem C10_parse_terminates_no_import_partial (cfg : Cfg) (fuel : Nat) (fn : String) (input : Bytes)
+theorem C10_parse_terminates_no_import_partial (cfg : Cfg) (fuel : Nat) (fn : String) (input : Bytes) (hfn : fn ≠ "")
     (hp : Plain cfg (lex input)) (hf : (lex input).length + 3 ≤ fuel) :
     parse cfg fuel fn input ≠ .timeout := by
   intro h
-  have := parse_fin cfg fuel fn input hp hf
+  have := parse_fin cfg fuel fn input hfn hp hf
   rw [h] at this
   exact this
 
@@ -80,18 +80,27 @@ example : Plain {} (lex [0x68, 0x6F, 0x73, 0x74, 0x20, 0x7B, 0x0A, 0x20, 0x64, 0
     0x20, 0x7B, 0x0A, 0x20, 0x20, 0x78, 0x0A, 0x20, 0x7D, 0x0A, 0x7D]) :=
   plain_of_noRef {} (by decide) _ (by decide)
 
-/-- Totality for import-free inputs, in the judge's terms: the model's answer is never `panic` and never
-`timeout`, i.e. it is blocks or an error. -/
-theorem C10_model_returns_partial (cfg : Cfg) (fuel : Nat) (fn : String) (input : Bytes)
+/-- Every token the lexer produces carries a line number ≥ 1 (so an error at a token names a real line). -/
+theorem C10_lex_lines (input : Bytes) : ∀ t ∈ lex input, 1 ≤ t.line := lex_lines input
+
+/-- PARTIAL (same gap: no `import`) — the model's answer satisfies the judge: for every import-free input the
+totality half of C10 holds of what the model answers — server blocks, or an error that names a non-empty file
+and a line ≥ 1; never a panic, never a timeout.  This is the predicate (`ParserSpec.total`, verdict `"ok"`) that
+the model driver applies to the answers of the REAL parser. -/
+theorem C10_model_verdict_ok_partial (cfg : Cfg) (fuel : Nat) (fn : String) (input : Bytes) (hfn : fn ≠ "")
     (hp : Plain cfg (lex input)) (hf : (lex input).length + 3 ≤ fuel) :
-    (∃ bs, answerOf (parse cfg fuel fn input) = .blocks bs) ∨
-    (∃ c f l, answerOf (parse cfg fuel fn input) = .error c f l) := by
-  have h1 := C10_parse_terminates_no_import_partial cfg fuel fn input hp hf
+    totalVerdictA (answerOf (parse cfg fuel fn input)) = "ok" := by
+  rw [totalVerdictA_ok_iff]
+  have h := parse_fin cfg fuel fn input hfn hp hf
   cases hr : parse cfg fuel fn input with
-  | ok bs => exact Or.inl ⟨bs, rfl⟩
-  | err c f l => exact Or.inr ⟨c, f, l, rfl⟩
+  | ok bs => rfl
+  | err c f l =>
+    rw [hr] at h
+    obtain ⟨h1, h2⟩ := h
+    simp only [answerOf, total, Bool.and_eq_true, bne_iff_ne, ne_eq, decide_eq_true_eq]
+    exact ⟨h1, h2⟩
   | panic m => exact absurd hr (C10_parse_no_panic cfg fuel fn input m)
-  | timeout => exact absurd hr h1
+  | timeout => rw [hr] at h; exact h.elim
 
 /-! ### import cycles (finding F8, repaired) -/
 
